@@ -62,6 +62,7 @@ type hOp struct {
 	V    uint64 `json:"v,omitempty"`
 	Amt  string `json:"amt,omitempty"`
 	Kind int    `json:"kind,omitempty"`
+	End  int    `json:"end,omitempty"` // "deployc" / "create2": how the constructor ends (genesis_evm.go: endRuntime ...)
 	// parameter-update ops of the restart driver ("params"): module and the fields to override
 	Mod string          `json:"mod,omitempty"`
 	P   json.RawMessage `json:"p,omitempty"`
@@ -92,7 +93,8 @@ type hist struct {
 	slots     map[common.Address]map[uint64]bool
 	vest      []sdk.AccAddress
 	vestKey   []int
-	small     []common.Address // small contracts (op "deployc")
+	small     []common.Address // small contracts (op "deployc" / "create2", their CREATE children), with or without code
+	factories []common.Address // CREATE2 factories (op "factory")
 	planned   []common.Address // future CREATE addresses that were prepared (vesting account / funded ahead)
 	liquid    []string
 	coins     []string // registered cosmos coins (erc20 pairs by RegisterCoin)
@@ -625,6 +627,7 @@ func hexAddrs(h *hist) []common.Address {
 	}
 	out = append(out, h.contracts...)
 	out = append(out, h.small...)
+	out = append(out, h.factories...)
 	out = append(out, h.planned...)
 	for _, v := range h.vest {
 		out = append(out, common.BytesToAddress(v))
@@ -923,6 +926,20 @@ func genesisRunCase(id string, in hInput) []Case {
 		}
 		if len(hd.Code) > 0 && len(hd.Slots) > 0 && hd.Kind == "clawback" {
 			obs.Sizes["evm_code_and_storage_on_clawback_account"]++
+		}
+		if len(hd.Code) == 0 && len(hd.Slots) > 0 {
+			// not an externally owned account although its code is empty: a creation whose constructor stored
+			// and returned no code
+			obs.Sizes["evm_storage_without_code"]++
+			obs.Sizes["evm_storage_without_code_on_"+hd.Kind+"_account"]++
+		}
+		if len(hd.Code) == 1 {
+			obs.Sizes["evm_one_byte_code"]++
+		}
+		for _, v := range hd.Slots {
+			if v == (common.Hash{}) {
+				obs.Sizes["evm_zero_valued_slots"]++
+			}
 		}
 	}
 	obs.Sizes["token_pairs"] = len(c.App.Erc20Keeper.GetTokenPairs(ctx1))
